@@ -5,7 +5,7 @@
      answer: after each operation `index,limit,len|v,v,…` (chain, top first), for `o`/`t` prefixed
      by `=<value>:`; joined by `;`.  A Go panic is `PANIC` and ends the line.
 
-   stream `mini`: line = `<n> q₁ … qₙ main ||| <wire input>` with queries in prefix form
+   stream `mini`: line = `<fuel> <n> q₁ … qₙ main ||| <wire input>` with queries in prefix form
         id | c <wire value> | pipe a b | comma a b | iter | empty | arr q | param | call <f> a
      answer: `<instructions of compileProg, scope ids and registers renumbered by first
      appearance> ||| <outputs of the mini VM> END` (or `ERR msg s<hex>`), `?…` when not covered. -/
@@ -139,16 +139,19 @@ def showOutcome : Outcome → String
   | .outOfFuel _ => "?fuel"
   | .stuck outs => showOuts outs ++ "STUCK"
 
-def line (fuel : Nat) (l : String) : String :=
+def line (l : String) : String :=
   let toks := tokens l
   let (pt, vt) := toks.span (· != "|||")
-  match pProg pt, parseVal (vt.drop 1) with
-  | some (p, []), some (v, []) =>
-    let code := compileProg p
-    showCode code ++ " ||| " ++ showOutcome (runProg p fuel v)
-  | _, _ => "?parse"
+  match pt with
+  | fuel :: pt =>
+    match fuel.toNat?, pProg pt, parseVal (vt.drop 1) with
+    | some fuel, some (p, []), some (v, []) =>
+      let code := compileProg p
+      showCode code ++ " ||| " ++ showOutcome (runProg p fuel v)
+    | _, _, _ => "?parse"
+  | [] => "?parse"
 
 end MiniDrv
 
 def main (args : List String) : IO UInt32 :=
-  Driver.main [("stack", StackDrv.line), ("scopestack", StackDrv.line), ("mini", MiniDrv.line 2000000)] args
+  Driver.main [("stack", StackDrv.line), ("scopestack", StackDrv.line), ("mini", MiniDrv.line)] args
